@@ -12,6 +12,7 @@ import Cgp.Drive.Gs
 import Cgp.Drive.Op
 import Cgp.Drive.Up
 import Cgp.Drive.Ex
+import Cgp.Drive.AbiD
 open Cgp Cgp.Tok
 
 inductive World where
@@ -22,6 +23,7 @@ inductive World where
   | op (s : Cgp.Drive.Op.OpS)
   | up (s : Cgp.Drive.Up.UpS)
   | ex (s : Cgp.Drive.Ex.ExS)
+  | abi
 
 structure Out where
   obs : String
@@ -36,6 +38,7 @@ def World.step (w : World) (t : List String) (implObs : String) : World × Out :
   | .op s => let (s', o) := Cgp.Drive.Op.step s t; (.op s', ⟨o.obs, o.kind⟩)
   | .up s => let (s', o) := Cgp.Drive.Up.step s t implObs; (.up s', ⟨o.obs, o.kind⟩)
   | .ex s => let (s', o) := Cgp.Drive.Ex.step s t implObs; (.ex s', ⟨o.obs, o.kind⟩)
+  | .abi => let o := Cgp.Drive.AbiD.step t; (.abi, ⟨o.obs, o.kind⟩)
 
 def World.known : World → List String
   | .none => []
@@ -45,6 +48,7 @@ def World.known : World → List String
   | .op _ => Cgp.Drive.Op.known
   | .up _ => Cgp.Drive.Up.known
   | .ex _ => Cgp.Drive.Ex.known
+  | .abi => []
 
 def newWorld (cluster : String) : World :=
   match cluster with
@@ -54,6 +58,7 @@ def newWorld (cluster : String) : World :=
   | "op" => .op {}
   | "up" => .up {}
   | "ex" => .ex {}
+  | "abi" => .abi
   | _ => .none
 
 structure RunAcc where
@@ -104,6 +109,7 @@ partial def loop (h : IO.FS.Stream) (acc : RunAcc) : IO RunAcc := do
         else
           let cls :=
             if out.obs.startsWith "parse-error" then "driver-error"
+            else if implC.startsWith "panic" && !out.obs.startsWith "panic" then "crash"
             else if isOk implC && !isOk out.obs then "safety"
             else if !isOk implC && isOk out.obs then "completeness"
             else "exactness"
